@@ -85,9 +85,9 @@ async fn query_nameserver_udp_notimeout(
     let sock = UdpSocket::bind("0.0.0.0:0").await.ok()?;
     sock.connect(address).await.ok()?;
     send_udp_bytes(&sock, serialised_request).await.ok()?;
-    sock.recv(&mut buf).await.ok()?;
+    let len = sock.recv(&mut buf).await.ok()?;
 
-    Message::from_octets(&buf).ok()
+    Message::from_octets(&buf[..len]).ok()
 }
 
 /// Send a message to a remote nameserver over TCP, returning the
